@@ -116,6 +116,8 @@ def _main(a, prop, tier, seed, t0):
                                   "time_s": round(rr["time_s"], 4), "kind": "lemma", "model": rr.get("model", "")[:3000]})
 
     n_obl = n_dis = 0
+    open_obls = []
+    baseline = load_baseline()
     by_backend = {}
     solver_time = 0.0
     functions = []
@@ -158,7 +160,29 @@ def _main(a, prop, tier, seed, t0):
                 violations.append({"obligation": o["id"], "contract": ident, "target": key[0], "model": o.get("model", ""),
                                    "what": f"obligation {o['id']} has a counter-model"})
             else:
-                undecided.append(f"{o['id']}: {o.get('reason', 'unknown')}")
+                open_obls.append((ident, key[0], o))
+    # obligations left open: retry alone with a doubled budget (guards against load-induced timeouts), then classify
+    if open_obls:
+        from pyvc.solve import TIMEOUT_S
+        retry = prove.run(a.repo, sorted({(k, i) for (k, i), r in results.items() if r.get("ident") in {x[0] for x in open_obls}}),
+                          jobs=2, use_cache=False, timeout=TIMEOUT_S * 2)
+        status2 = {o["id"]: o for r in retry for o in r.get("obligations", [])}
+        for ident, tgt, o in open_obls:
+            o2 = status2.get(o["id"], o)
+            if o2["status"] == "proved":
+                n_dis += 1
+                by_backend[o2["backend"] + "(retry)"] = by_backend.get(o2["backend"] + "(retry)", 0) + 1
+            elif o2["status"] == "refuted":
+                violations.append({"obligation": o["id"], "contract": ident, "target": tgt, "model": o2.get("model", ""),
+                                   "what": f"obligation {o['id']} has a counter-model"})
+            elif norm_id(o["id"]) in baseline:
+                # discharged on the unchanged tree, fails now: reported as a violation without a counter-model (brief: no-failing-input-found)
+                violations.append({"obligation": o["id"], "contract": ident, "target": tgt,
+                                   "model": "no counter-model: solvers answered " + str(o2.get("reason", "unknown")),
+                                   "what": f"obligation {o['id']} was discharged on the unchanged tree and is no longer provable "
+                                           f"({o2.get('reason', 'unknown')})"})
+            else:
+                undecided.append(f"{o['id']}: {o2.get('reason', 'unknown')}")
     for o in lemma_results:
         n_obl += 1
         if o["status"] == "proved":
@@ -269,6 +293,19 @@ def _main(a, prop, tier, seed, t0):
         print("  no obligations generated for a proof-level claim")
         return 3
     return 0
+
+
+def norm_id(oid):
+    import re
+    return re.sub(r"(@L\+-?\d+|@[\w.]+:L\d+)?(/p\d+)?$", "", oid)
+
+
+def load_baseline():
+    p = os.path.join(HERE, "baseline_obligations.json")
+    if not os.path.exists(p):
+        return set()
+    with open(p) as fh:
+        return set(json.load(fh).get("proved", []))
 
 
 def match_finding(findings, v):
